@@ -14,7 +14,8 @@ Two harness families:
                  fails at the same j.
 Oracle (socket registry): success ⇒ exactly one library-created socket is open, it is connected, and it is the one
 returned; failure/cancel ⇒ no library-created socket is open and the caller saw ExceptionGroup[OSError]/OSError
-(CancelledError only if the harness cancelled).  If any attempt was established and nobody cancelled ⇒ success.
+(CancelledError only if the harness cancelled); a ``task.cancel()`` that returned True is never answered with a socket
+(``cancelled-connect-reports-cancellation``; ``client.aclose()`` as the abort is exempt: wait_connected() may have won).  If any attempt was established and nobody cancelled ⇒ success.
 Model: a resolved address is reachable if its scripted outcome is "connected" and, when ``local_address`` is given, at
 least one resolved local address of the same family can be bound (per-address EADDRINUSE/EADDRNOTAVAIL); a reachable
 address and nobody cancelled ⇒ success, from a bindable local address.
@@ -405,6 +406,7 @@ def _run(world: World, sc: dict, *, cancel_iter: int | None = None, cancel_time:
         else:
             res["outcome"] = "ok"
             res["ret_fd"] = task.result()
+            res["cancelling"] = task.cancelling()
         # let the loop go idle: pending call_soon close callbacks, late connect completions
         await asyncio.sleep(2.0)
         for _ in range(3):
@@ -480,6 +482,12 @@ def _check(world: World, sc: dict, res: dict, family: str, extra: str = "") -> N
         world.probe("hang_behind_never_attempt")
     if out == "ok" and res["cancel_sent"]:
         world.probe("success_despite_cancel_request")
+        if not res.get("aclose_started"):
+            # "if the connect is cancelled at any point, every socket is closed and the failure is reported": task.cancel()
+            # returned True, i.e. the connecting task was not done and a CancelledError is thrown into the connect call at
+            # its current await.  A connect that returns a socket all the same has swallowed the caller's cancellation
+            # (the request is lost: nothing re-delivers it) and hands out a socket to a caller that gave up.
+            raise bad("cancelled-connect-reports-cancellation")
     if res.get("aclose_started"):
         # connect aborted by client.aclose(): once aclose() has returned nothing may stay open, whatever wait_connected() saw
         if res.get("aclose_hang"):
